@@ -17,7 +17,11 @@ def run(tier, replay=None):
         c04.run_enc(rep, crate, cfg)
         c04.run_ldpc_hdpc(rep, crate, cfg)
         c04.run_isi(rep, crate, cfg)
-        c15.run_lookup_schema(rep, crate, cfg)
+        scans = c15.run_lookup_schema(rep, crate, cfg)
+        # a symbol that cannot be produced in some build (overflow panic for one ESI) is not the RFC's symbol: C15-R3
+        tab = c15.run_tables(rep, crate, cfg)
+        if tab is not None:
+            c15.run_ranges(rep, crate, cfg, scans, tab)
         c04.run_constants(rep, crate, cfg, pins)
         # the symbols that are encoded are the RFC's sub-block interleaving of the block (C05-R1..R4)
         c05.run(rep, crate, cfg)
